@@ -32,7 +32,6 @@ families of the quantifier.
 """
 import os
 import sys
-import itertools
 
 os.environ.setdefault('VERIF_PROVE_FRESH_MS', '5000')
 os.environ.setdefault('VERIF_BRANCH_NLSAT_MS', '2000')
@@ -41,7 +40,7 @@ import numpy as np
 import thermosteam as tmo
 from thermosteam import equilibrium as eq
 from thermosteam.exceptions import NoEquilibrium, InfeasibleRegion
-from engine.api import group, CheckAbort, _close
+from engine.api import group, _close
 from engine.sx import tmo_world as W
 
 lle_mod = sys.modules['thermosteam.equilibrium.lle']
@@ -201,14 +200,6 @@ def install_solver(env, mode):
 
     env.patch(lle_mod.LLE, 'solve_lle_liquid_mol', solve_lle_liquid_mol)
     return stub
-
-
-def install_phase_fraction_havoc(env):
-    """A-phase-fraction: a value in [0, 1] (as_valid_fraction)."""
-    def phase_fraction(zs, Ks, guess=None, za=0., zb=0.):
-        env.count('phase_fraction')
-        return env.leaf('phi', lo=0., hi=1.)
-    env.patch(lle_mod, 'phase_fraction', phase_fraction)
 
 
 def lle_stream(w, name, pkg, phases, dist):
@@ -378,8 +369,6 @@ def lle_call(w, cfg):
             straight = w.And(*[w.And(w.eq(now['L', ID], molL[i] * F), w.eq(now['l', ID], (z[i] - molL[i]) * F)) for i, ID in enumerate(sIDs)])
             mirror = w.And(*[w.And(w.eq(now['l', ID], molL[i] * F), w.eq(now['L', ID], (z[i] - molL[i]) * F)) for i, ID in enumerate(sIDs)])
             w.ensure('split = solver result x total flow (or its mirror image)', w.Or(straight, mirror))
-            if top is None:
-                w.ensure('no top chemical: solver labelling kept', straight)
             for i, ID in enumerate(sIDs):
                 w.ensure(f'solver saw the normalised feed z[{ID}]', w.eq(z[i] * F, before['l', ID] + before['L', ID]))
             a = list(molL)
@@ -469,41 +458,47 @@ class _Stop(Exception):
 
 
 def lle_cache_decision_configs(tier):
+    WO_, WE_, WOE_ = ['Water', 'Octanol'], ['Water', 'Ethanol'], ['Water', 'Octanol', 'Ethanol']
     fam = [
-        # pkg, chemicals present at the first call, at the second call, top
-        ('WO', ['Water', 'Octanol'], ['Water', 'Octanol'], None),
-        ('WOE', ['Water', 'Octanol'], ['Water', 'Octanol'], 'Octanol'),
-        ('WOE', ['Water', 'Octanol'], ['Water', 'Ethanol'], None),              # same number of chemicals, another pair
-        ('WOE', ['Water', 'Octanol'], ['Water', 'Octanol', 'Ethanol'], None),   # one chemical more
-        ('WOE', ['Water', 'Octanol', 'Ethanol'], ['Water', 'Octanol', 'Ethanol'], None),
+        # pkg, chemicals present at each call (the decision of the LAST call is observed; the earlier ones run in full), top
+        ('WO', [WO_, WO_], None),
+        ('WOE', [WO_, WO_], 'Octanol'),
+        ('WOE', [WO_, WE_], None),               # same number of chemicals, another pair
+        ('WOE', [WO_, WOE_], None),              # one chemical more
+        ('WOE', [WOE_, WOE_], None),
+        ('WO', [WO_, WO_, WO_], None),           # two earlier calls: the remembered T / z must be those of the LAST call
+        ('WOE', [WO_, WE_, WO_], 'Octanol'),     # ... and the remembered chemicals as well
     ]
     if tier == 'thorough':
         fam += [
-            ('EOW', ['Water', 'Octanol', 'Ethanol'], ['Water', 'Octanol', 'Ethanol'], 'Water'),
-            ('EOW', ['Water', 'Octanol', 'Ethanol'], ['Octanol', 'Ethanol'], None),
-            ('WOE', ['Octanol', 'Ethanol'], ['Water', 'Octanol'], 'Octanol'),
+            ('EOW', [WOE_, WOE_], 'Water'),
+            ('EOW', [WOE_, ['Octanol', 'Ethanol']], None),
+            ('WOE', [['Octanol', 'Ethanol'], WO_], 'Octanol'),
+            ('WO', [WO_, WO_, WO_], 'Octanol'),
+            ('WOE', [WOE_, WO_, WOE_], None),
         ]
-    return [{'name': f"{pkg}/first={'+'.join(i[0] for i in c1)}/second={'+'.join(i[0] for i in c2)}/top={top}",
-             'pkg': pkg, 'first': c1, 'second': c2, 'top': top} for pkg, c1, c2, top in fam]
+    return [{'name': f"{pkg}/calls=" + '>'.join('+'.join(i[0] for i in c) for c in calls) + f"/top={top}",
+             'pkg': pkg, 'calls': calls, 'top': top} for pkg, calls, top in fam]
 
 
 @group('C15/lle_cache_decision', configs=lle_cache_decision_configs, functions=['thermosteam.equilibrium.lle:LLE.__call__'],
-       assumptions=['A-opt (box only): LLE.solve_lle_liquid_mol returns 0 <= mol_L <= mol',
+       assumptions=['A-opt (box only): LLE.solve_lle_liquid_mol returns 0 < mol_L < mol',
                     'A-phase-fraction: binary_phase_fraction.phase_fraction returns a value in [0, 1]'])
 def lle_cache_decision(w, cfg):
     """
     A call never returns the equilibrium of an earlier temperature or composition: the remembered coefficients are
-    reused only if the chemicals are the same and temperature and every mole fraction agree with the remembered
-    ones within the solver's own tolerances (both directions).
+    reused only if the chemicals are the same and temperature and every mole fraction agree with those of the PREVIOUS
+    call within the solver's own tolerances (both directions).  The earlier calls (1 or 2, each with new flows and a new
+    temperature) run in full; the last call is stopped as soon as it has either asked the solver or the Rachford-Rice step.
     """
     W.reset_caches()
     env = Env(w, cfg)
     try:
-        stub = install_solver(env, 'interior')      # what the first call returned is irrelevant for the decision under check
-        seen = {'second': False, 'reused': None}
+        stub = install_solver(env, 'interior')      # what the earlier calls returned is irrelevant for the decision under check
+        seen = {'observing': False, 'reused': None}
 
         def phase_fraction(zs, Ks, guess=None, za=0., zb=0.):
-            if seen['second']:
+            if seen['observing']:
                 seen['reused'] = True
                 raise _Stop()
             return env.leaf('phi', lo=0., hi=1.)
@@ -511,7 +506,7 @@ def lle_cache_decision(w, cfg):
         real_stub = lle_mod.LLE.solve_lle_liquid_mol
 
         def solve(self, mol, T, lle_chemicals, single_loop):
-            if seen['second']:
+            if seen['observing']:
                 seen['reused'] = False
                 raise _Stop()
             return real_stub(self, mol, T, lle_chemicals, single_loop)
@@ -520,42 +515,60 @@ def lle_cache_decision(w, cfg):
         env.patch(lle_mod.LLE, 'solve_lle_liquid_mol', solve)
         pkg = cfg['pkg']
         top = cfg['top']
-        s, l1 = lle_stream(w, 'f', pkg, 'lL', {ID: {'l': '+', 'L': '0'} for ID in cfg['first']})
+        calls = cfg['calls']
+        s, _ = lle_stream(w, 'f', pkg, 'lL', {})
         lle = s.lle
-        T0 = w.real('T0', lo=285., hi=355.)
-        lle(T0, top_chemical=top)
-        F0 = w_total([l1['l', ID] for ID in cfg['first']])
-        z0 = {ID: l1['l', ID] / F0 for ID in cfg['first']}
-        l2 = plant(w, s, 'g', {ID: {'l': '+', 'L': '+'} for ID in cfg['second']})
-        F1 = w_total([l2['l', ID] + l2['L', ID] for ID in cfg['second']])
-        z1 = {ID: (l2['l', ID] + l2['L', ID]) / F1 for ID in cfg['second']}
-        T1 = w.real('T1', lo=285., hi=355.)
-        seen['second'] = True
-        try:
-            lle(T1, top_chemical=top, use_cache=True)
-        except _Stop:
-            pass
+        zs, Ts = [], []
+        for n, present in enumerate(calls):
+            if len(calls) > 2 and n < len(calls) - 1:
+                # histories of two earlier calls: the flows of the earlier calls are fixed numbers (their temperatures, the
+                # solver answers and the whole last call stay symbolic); keeps the path condition small
+                plant(w, s, f'f{n}', {})
+                IDs_all = s.chemicals.IDs
+                leaves = {}
+                for j, ID in enumerate(present):
+                    leaves['l', ID] = float(1 + (j + 2 * n) % 3)
+                    leaves['L', ID] = 0.
+                    dict(W.rows_of(s))['l'].dct[IDs_all.index(ID)] = leaves['l', ID]
+            else:
+                leaves = plant(w, s, f'f{n}', {ID: {'l': '+', 'L': '+' if n else '0'} for ID in present})
+            F = w_total([leaves['l', ID] + leaves['L', ID] for ID in present])
+            zs.append({ID: (leaves['l', ID] + leaves['L', ID]) / F for ID in present})
+            Ts.append(w.real(f'T{n}', lo=285., hi=355.))
+            if n == len(calls) - 1:
+                seen['observing'] = True
+            try:
+                lle(Ts[n], top_chemical=top, use_cache=True)
+            except _Stop:
+                pass
+            except ZeroDivisionError:
+                if n == len(calls) - 1:
+                    raise
+                w.note(outcome='ZeroDivisionError in an earlier call (arbitrary phase fraction)')
+                return
         reused = seen['reused']
         if reused is None:
-            raise AssertionError('the second call neither solved nor reused (contract harness out of date)')
+            raise AssertionError('the last call neither solved nor reused (contract harness out of date)')
         tolT = lle.temperature_cache_tolerance
         tolz = lle.composition_cache_tolerance
+        last, prev = calls[-1], calls[-2]
+        T1, T0, z1, z0 = Ts[-1], Ts[-2], zs[-1], zs[-2]
+        same_chems = sorted(last) == sorted(prev)
         if reused:
-            same_chems = sorted(cfg['first']) == sorted(cfg['second'])
-            w.ensure('reuse only for the same chemicals', w.And(same_chems))
-            w.ensure('reuse only at the remembered temperature (|T - T_last| < tolerance)',
+            w.ensure('reuse only for the chemicals of the previous call', w.And(same_chems))
+            w.ensure('reuse only at the temperature of the previous call (|T - T_last| < tolerance)',
                      w.And(w.lt(T1 - T0, tolT), w.lt(T0 - T1, tolT)))
             if same_chems:
-                for ID in cfg['first']:
-                    w.ensure(f'reuse only at the remembered composition (|z - z_last| < tolerance) [{ID}]',
+                for ID in last:
+                    w.ensure(f'reuse only at the composition of the previous call (|z - z_last| < tolerance) [{ID}]',
                              w.And(w.lt(z1[ID] - z0[ID], tolz), w.lt(z0[ID] - z1[ID], tolz)))
         else:
             w.ensure('solving anew is always allowed', w.And())
-        if sorted(cfg['first']) == sorted(cfg['second']):
+        if same_chems:
             w.canary('canary: the remembered coefficients are never reused', w.And(not reused))
         else:
-            w.canary('canary: the second call is at the first temperature', w.eq(T1, T0))
-        w.note(reused=reused, T0=T0, T1=T1)
+            w.canary('canary: the last call is at the temperature of the previous call', w.eq(T1, T0))
+        w.note(reused=reused, Ts=Ts)
     finally:
         env.restore()
 
